@@ -13,8 +13,8 @@ LEVEL = "exploration"
 ELL = Sym("...")
 LIT = "lit"
 
-PELEMS = ["var", "_", "lit", 1, True, "s", ["var"], Vec(["var"]), ["var", "..."], ["var", "var"], Vec(["var", "..."])]
-UELEMS = [S("a"), S(LIT), 1, 2, True, "s", [], [S("a")], Vec([S("a")]), [1, 2], [S("a"), S(LIT)], Vec([1, 2]), Dot([S("a")], 2), Dot([1, 2], S("a")), LIT]
+PELEMS = ["var", "_", "lit", 1, True, "s", ["var"], Vec(["var"]), ["var", "..."], ["var", "var"], Vec(["var", "..."]), Vec([]), []]
+UELEMS = [S("a"), S(LIT), 1, 2, True, "s", [], Vec([]), [S("a")], Vec([S("a")]), [1, 2], [S("a"), S(LIT)], Vec([1, 2]), Dot([S("a")], 2), Dot([1, 2], S("a")), LIT]
 
 
 def realize(skel, counter):
@@ -361,10 +361,13 @@ def run(tier, seed):
         between = False      # (a variable definition of m between the two: m stays a macro in Ruschm; no property speaks about that, see DESIGN 4.3)
         if between:
             steps += [{"src": "(define (m . args) (cons 'procedure-m args))"}, {"src": "(m 1 2)", "disp": True}]
-        steps += [{"src": define_text(r2)}] + [{"src": use_text(u), "disp": True} for u in mixed]
-        rjobs.append({"id": "c04r", "interps": [{"stdlib": True}], "steps": steps, "fuel": 20000}); rmeta.append((r1, u1[:8], r2, mixed, between))
+        # the second definition sometimes arrives in ONE submission with a form that fails after it: the forms before the failing one have taken effect
+        failing_tail = (k // 2) % 3 == 1
+        steps += [{"src": define_text(r2) + (" (vector-ref (vector) 0) (define-syntax m (syntax-rules () ((m . any) 'never-evaluated)))" if failing_tail else "")}]
+        steps += [{"src": use_text(u), "disp": True} for u in mixed]
+        rjobs.append({"id": "c04r", "interps": [{"stdlib": True}], "steps": steps, "fuel": 20000}); rmeta.append((r1, u1[:8], r2, mixed, (between, failing_tail)))
     rrecs = core.run_jobs(rjobs, "dev" if tier == "quick" else "release", timeout=900, tag="c04r")
-    for (r1, u1, r2, mixed, between), rec in zip(rmeta, rrecs):
+    for (r1, u1, r2, mixed, (between, failing_tail)), rec in zip(rmeta, rrecs):
         if rec is None or "steps" not in rec:
             ctx.inconclusive_cases += 1; continue
         st = rec["steps"]
@@ -385,7 +388,13 @@ def run(tier, seed):
                                "rules": define_text(r1), "dedupe": "redef-proc"}, {"define": define_text(r1)})
             pos += 2
         k0, v0 = core.outcome(st[pos]); pos += 1
-        if k0 != "ok":
+        if failing_tail:
+            if k0 != "err" or not str(v0.get("kind", "")).startswith("Logic."):
+                ctx.violation({"what": "a submission whose second form faults did not report that fault", "kind": "define", "rules": define_text(r2), "observed": st[pos - 1], "dedupe": "redef-failing-tail"},
+                              {"define": define_text(r2)})
+                continue
+            ctx.count("redefinitions_in_a_failing_submission")
+        elif k0 != "ok":
             ctx.violation({"what": "a second define-syntax of the same keyword was rejected", "kind": "define", "rules": define_text(r2), "observed": st[pos - 1], "dedupe": "redef-define"},
                           {"define": define_text(r2)})
             continue
